@@ -137,6 +137,30 @@ fn oracle_layered(inp: &PV, out: &PV) -> T {
     tm::and(goal)
 }
 
+/// open hypergraph with a fixed arity profile (sources, targets per hyperedge) and free wiring
+pub fn gen_profile(profile: &[(usize, usize)], w: usize, name: &str) -> RawOH {
+    let s_total: usize = profile.iter().map(|p| p.0).sum();
+    let t_total: usize = profile.iter().map(|p| p.1).sum();
+    RawOH {
+        s: RawFF { table: vec![], target: ci(w) },
+        t: RawFF { table: vec![], target: ci(w) },
+        h: RawH {
+            s: RawIC { sizes: profile.iter().map(|p| ci(p.0)).collect(), sizes_target: ci(s_total + 1), vals: gen_idx(s_total, w, &format!("{}s", name)), vals_target: ci(w) },
+            t: RawIC { sizes: profile.iter().map(|p| ci(p.1)).collect(), sizes_target: ci(t_total + 1), vals: gen_idx(t_total, w, &format!("{}t", name)), vals_target: ci(w) },
+            w: gen_labels(w, &format!("{}w", name)),
+            x: gen_labels(profile.len(), &format!("{}x", name)),
+        },
+    }
+}
+pub fn profile_cases(profile: Vec<(usize, usize)>, w: usize) -> Vec<Case> {
+    let p1 = profile.clone();
+    let p2 = profile.clone();
+    vec![
+        crate::case!(format!("layer profile={:?} W={}", profile, w), move || PV::List(vec![PV::OH(gen_profile(&p1, w, "f"))]), c15_layer, oracle_layer, 5),
+        crate::case!(format!("layered_operations profile={:?} W={}", profile, w), move || PV::List(vec![PV::OH(gen_profile(&p2, w, "f"))]), c15_layered, oracle_layered, 3),
+    ]
+}
+
 pub fn cases(sh: Shape) -> Vec<Case> {
     vec![
         crate::case!(format!("layer {}", sh.show()), move || PV::List(vec![PV::OH(gen_oh(&sh, "f"))]), c15_layer, oracle_layer, 5),
@@ -162,6 +186,14 @@ pub fn jobs(tier: Tier, seed: u64) -> Vec<Job> {
     let n_must = must.len();
     must.extend(rest);
     let mut out = vec![];
+    // three operations with fixed arities and free wiring (operations whose producers sit in different layers)
+    let base = vec![(0usize, 2usize), (1, 1), (2, 0)];
+    for perm in crate::plain::perms(3) {
+        let profile: Vec<(usize, usize)> = perm.iter().map(|i| base[*i]).collect();
+        for c in profile_cases(profile, 3) {
+            out.push(case_job(c, base_cfg(tier), per_job, tier == Tier::Quick));
+        }
+    }
     for (i, sh) in must.into_iter().enumerate() {
         for c in cases(sh) {
             out.push(case_job(c, base_cfg(tier), per_job, i < n_must && tier == Tier::Quick));
